@@ -723,6 +723,32 @@ func (x *Exec) specCallExpr(env *SpecEnv, e *SExpr) Value {
 			hp := x.L.pkgOf("net/http")
 			mt := hp.Types.Scope().Lookup("Header").Type().Underlying().(*types.Map)
 			return MapV{ID: env.st.ghostInt("upreqhdr"), Type: mt}
+		case "local":
+			// local(name): the value a local variable of the function holds in the state the clause
+			// is evaluated in (a ghost witness for postconditions); on paths that never assigned
+			// it, an arbitrary integer
+			if e.Args[0].Kind != SIdent {
+				x.specFail("local(<identifier>)")
+			}
+			nm := e.Args[0].Name
+			var found Value
+			cnt := 0
+			for obj, v := range env.st.vars {
+				if obj != nil && obj.Name() == nm && v != nil {
+					if _, isParam := env.vars[nm]; isParam {
+						continue
+					}
+					found = v
+					cnt++
+				}
+			}
+			if cnt == 1 {
+				return found
+			}
+			if cnt > 1 {
+				x.specFail("local(%s) is ambiguous: several variables of that name", nm)
+			}
+			return IntV{Var(x.fresh("nolocal_"+nm), SInt)}
 		case "ctxcancellable":
 			// ctxcancellable(c): context c can be cancelled (by a client hanging up, a deadline, ...)
 			return BoolV{ctxCancellable(x.asTermAny(x.specEval(env, e.Args[0])))}
